@@ -142,6 +142,7 @@ void hx_job_to_slot(const hx_job *j, IMB_JOB *slot);
 /* compare outputs of two jobs built from the same spec: bit0 dst differs, bit1 tag differs,
  * bit2 auxiliary output differs (next_iv, inserted CRC) */
 int hx_job_cmp_out(const hx_job *a, const hx_job *b);
+int hx_tag_defined(const hx_spec *sp);
 /* checks on a returned job: bit0 source modified, bit1 dst written beyond len, bit2 tag buffer written
  * beyond taglen, bit3 canary */
 int hx_job_check_bounds(const hx_job *j);
@@ -160,6 +161,7 @@ extern const char *const hx_kinds[];
 extern const int hx_nkinds;
 extern long hx_force_len;
 extern int hx_len_long;
+extern int hx_docsis_shape;
 
 /* run `sp` alone on the oracle manager for variant v; fills out (caller frees). returns status */
 int hx_run_alone(const hx_variant *v, const hx_spec *sp, hx_job *out);
